@@ -33,7 +33,7 @@ pub fn score_tables_bounded() {
     // with both kings on the board: |score| <= (king spread) + material of one full side
     assert!((k - kmin) + 9 * q + 2 * r + 2 * b + 2 * n <= SCORE_BOUND as i32, "C16: SCORE_BOUND is not implied by the material bound");
     // transient states inside push/pop (own king and one more piece lifted) and king captures in the search
-    assert!(SCORE_BOUND as i32 + q + k <= 32767, "C16: transient sums can leave i16");
+    assert!(SCORE_BOUND as i32 + q + k <= 32767 && SCORE_BOUND > 0, "C16: transient sums can leave i16");
 }
 
 /// Contract of Game::set_position(p, new):
@@ -82,8 +82,18 @@ pub fn gs_bits(g: &Game) -> u8 { super::gamestate::verif_gamestate::bits(*g.stat
 // Game::push  (C02) -- successor position, per move kind
 // =================================================================================================
 
-/// bound on |score| that WF4 + WF8 give (lemma score_tables_bounded)
-pub const SCORE_BOUND: i16 = 10_700;
+/// bound on |score| used as WF4/WF8 precondition: the largest value for which the transient states inside
+/// push/pop (own king and one more piece lifted, or an enemy king just captured) still fit i16 --
+/// computed from the engine's tables, so a change of the tables moves the bound with them; the lemma
+/// score_tables_bounded proves that the material bound of a legal position stays below it
+pub const SCORE_BOUND: i16 = {
+    const fn max_abs(t: &[i16; 64]) -> i32 { let mut m = 0i32; let mut i = 0; while i < 64 { let v = if t[i] < 0 { -(t[i] as i32) } else { t[i] as i32 }; if v > m { m = v; } i += 1; } m }
+    let q = max_abs(&scores::QUEEN_SCORES);
+    let k1 = max_abs(&scores::KING_SCORES_MIDDLE);
+    let k2 = max_abs(&scores::KING_SCORES_END);
+    let k = if k1 > k2 { k1 } else { k2 };
+    (32767 - q - k) as i16
+};
 
 /// WF6: a castling right implies king and rook on their home squares
 pub fn wf6(v: &spec::View) -> bool {
@@ -538,3 +548,42 @@ pub mod inst;
 
 #[path = "c_fen.rs"]
 pub mod fen;
+
+
+// =================================================================================================
+// WF is inductive at the level of the rules (spec-only lemmas behind "sequences of any length")
+// =================================================================================================
+
+/// spec::apply preserves WF6 (a right implies king and rook at home) and the number of kings, for every
+/// view with WF6 and every move of the shape push's contract assumes.  No engine code: together with
+/// push_contract_* (view(push(g,m)) == apply(view(g),m)) this is the induction step of C02 / C01.
+fn spec_apply_preserves_wf(kind: u8) {
+    let v = spec::View { board: mk::sym_codes64(), white_to_move: nd::bool(), castle: [nd::bool(), nd::bool(), nd::bool(), nd::bool()], ep: nd::u8_in(0, 8) };
+    let m = sym_move(kind);
+    nd::assume(wf6(&v));
+    nd::assume(push_shape_pre(&v, &m));
+    let n = spec::apply(&v, adapt::smove_of(&m));
+    assert!(wf6(&n), "C02: the rules' successor loses WF6 (a castling right survives although king or rook left home)");
+    if kind == 0 {
+        // Normal: exactly the two squares change, the mover arrives, and (precondition) no king was captured
+        // -- so the number of kings is unchanged (counting 64 squares four times made this query run > 20 min)
+        let j = mk::sym_sq();
+        if let spec::SMove::Normal { from, to } = adapt::smove_of(&m) {
+            assert!(n.board[from] == spec::EMPTY && n.board[to] == v.board[from] && (j == from || j == to || n.board[j] == v.board[j]),
+                    "C01: the rules' successor of a normal move changes a third square");
+        }
+    } else {
+        assert!(spec::count(&n.board, spec::K) == spec::count(&v.board, spec::K) && spec::count(&n.board, spec::K | spec::BLACK) == spec::count(&v.board, spec::K | spec::BLACK),
+                "C01: the rules' successor changes the number of kings");
+    }
+    assert!(n.white_to_move != v.white_to_move, "side not flipped");
+    vcover!(!v.white_to_move, "black move reachable");
+}
+macro_rules! wf_lemma { ($n:ident, $k:expr) => {
+    #[cfg_attr(kani, kani::proof)] #[cfg_attr(kani, kani::unwind(9))] #[cfg_attr(verif_replay, test)]
+    pub fn $n() { spec_apply_preserves_wf($k) } } }
+wf_lemma!(spec_apply_preserves_wf_normal, 0);
+wf_lemma!(spec_apply_preserves_wf_promotion, 1);
+wf_lemma!(spec_apply_preserves_wf_enpassant, 2);
+wf_lemma!(spec_apply_preserves_wf_castling_short, 3);
+wf_lemma!(spec_apply_preserves_wf_castling_long, 4);
